@@ -82,6 +82,8 @@ struct CancelTwin {
     stage: u8,
     drain_left: usize,
     reissued: bool,
+    /// what the application asks for when it calls again after giving a call up (None: the same)
+    reissue_as: Option<Step>,
     pub request_ops: Vec<usize>,
     /// after a cancelled disconnect(): call poll() once before calling disconnect() again
     poll_before_reissue: bool,
@@ -222,7 +224,7 @@ impl Driver for CancelTwin {
                     if needs && !self.reissued {
                         self.reissued = true;
                         self.request_ops.push(v.log.ops.len());
-                        return Some(with_cancel(&self.request, None));
+                        return Some(with_cancel(self.reissue_as.as_ref().unwrap_or(&self.request), None));
                     }
                     continue;
                 }
@@ -508,8 +510,25 @@ impl Check for C13 {
         }
         let other_at = std::cell::Cell::new(None::<usize>);
         let skip_flag = std::cell::Cell::new(false);
+        // one disconnect request in three is, after it was given up, made again with another
+        // reason / other properties: the DISCONNECT that goes out is the one that was begun (the
+        // first), or - where the first call had not got that far - the second; never a mix
+        let alt: Option<Step> = match &request {
+            Step::Disconnect(d) if !reconnect_after && rng.chance(1, 3) => {
+                let props = match &d.props {
+                    Some(p) if matches!(p.first(), Some(Prop::ReasonString(_))) => Some(vec![Prop::UserProperty("k".into(), "other words, other length".into()), Prop::ReasonString("x".into())]),
+                    Some(_) => Some(vec![Prop::ReasonString("going".into())]),
+                    None => Some(vec![Prop::ReasonString("a second thought".into())]),
+                };
+                out.count("disconnects_made_again_with_other_contents", 1);
+                Some(Step::Disconnect(DiscSpec { reason: Some(if d.reason == Some(4) { 0 } else { 4 }), props, cancel_at: None }))
+            }
+            _ => None,
+        };
+        let alt_ref = std::cell::Cell::new(false);
         let run = |cancels: Vec<usize>| -> (RunLog, Shared, Vec<usize>) {
-            let mut d = CancelTwin { prefix: prefix.clone().into(), request: request.clone(), cancels: cancels.into(), stage: 0, drain_left: 0, reissued: false, request_ops: vec![], poll_before_reissue: false, polled_before_reissue: false, ping_open_at_advance: false, reconnect_after, skip_request: skip_flag.get(), other_op: other_op.clone(), other_op_at: None, advance_after, tail: VecDeque::new(), then_qos0, qos0_done: false };
+            let req = if alt_ref.get() { alt.clone().unwrap() } else { request.clone() };
+            let mut d = CancelTwin { prefix: prefix.clone().into(), request: req, reissue_as: alt.clone(), cancels: cancels.into(), stage: 0, drain_left: 0, reissued: false, request_ops: vec![], poll_before_reissue: false, polled_before_reissue: false, ping_open_at_advance: false, reconnect_after, skip_request: skip_flag.get(), other_op: other_op.clone(), other_op_at: None, advance_after, tail: VecDeque::new(), then_qos0, qos0_done: false };
             let (log, world) = run_case(&cfg, seed, &mut d, prefix.len() + 400);
             polled_flag.set(d.polled_before_reissue);
             if d.ping_open_at_advance {
@@ -522,6 +541,17 @@ impl Check for C13 {
         let (alog, aworld, aops) = run(vec![]);
         let a_obs = observe(&alog, &aworld.borrow());
         let a_ping = ping_flag.replace(false);
+        // 2a. second reference: the other DISCONNECT asked for from the start
+        let a2_obs = if alt.is_some() {
+            alt_ref.set(true);
+            let (l, w, _) = run(vec![]);
+            alt_ref.set(false);
+            ping_flag.set(false);
+            let o = observe(&l, &w.borrow());
+            Some(o)
+        } else {
+            None
+        };
         // 2b. (reconnect_after) second reference: the application drops the handle without ever
         // calling disconnect(): a disconnect() given up before it completed either took effect or
         // left no trace, and what it did before it was given up (finishing owed packets) is the
@@ -705,6 +735,15 @@ impl Check for C13 {
                 // fit and the second disconnect() says so. The DISCONNECT is then legitimately absent.
                 let no_room = blog.ops.iter().any(|o| o.kind.starts_with("publish") && matches!(o.outcome, Outcome::Ok(_)) && bops.first().is_some_and(|f| o.ev_call > blog.ops[*f].ev_call))
                     && blog.ops.iter().rev().find(|o| o.kind == "disconnect").is_some_and(|o| o.outcome == Outcome::Err(ErrRepr::BufferTooSmall));
+                // (the same holds for a second disconnect() that asks for a DISCONNECT with properties
+                // where the first asked for a plain one: it is encoded in the arena, next to
+                // whatever the session holds there)
+                let alt_len = match &alt {
+                    Some(Step::Disconnect(DiscSpec { props: Some(p), .. })) => Some(4 + p.iter().map(|x| match x { Prop::ReasonString(s) => 3 + s.len(), Prop::UserProperty(k, v) => 5 + k.len() + v.len(), _ => 0 }).sum::<usize>()),
+                    _ => None,
+                };
+                let no_room = no_room
+                    || blog.ops.iter().rev().find(|o| o.kind == "disconnect").is_some_and(|o| o.outcome == Outcome::Err(ErrRepr::BufferTooSmall) && alt_len.is_some_and(|n| o.snap_before.as_ref().is_some_and(|s| s.tx.capacity.saturating_sub(s.tx.used) < n + 5)));
                 if no_room {
                     out.count("second_disconnect_refused_for_lack_of_arena_room", 1);
                 }
@@ -718,12 +757,13 @@ impl Check for C13 {
                     // among the other packets depends on how many calls were made: not compared)
                     let pa: Vec<Vec<u8>> = if advance_after.is_some() { pa.into_iter().filter(|p| p.first() != Some(&0xC0)).collect() } else { pa };
                     let pa = &pa;
+                    let alt_last = a2_obs.as_ref().and_then(|o| o.packets.get(ci)).and_then(|c| c.last()).filter(|x| x.first() == Some(&0xE0));
                     let mut it = pb.iter();
-                    if let Some(miss) = pa.iter().find(|x| !it.any(|y| y == *x)) {
+                    if let Some(miss) = pa.iter().find(|x| !it.any(|y| y == *x || (x.first() == Some(&0xE0) && Some(y) == alt_last))) {
                         bad = Some(format!("conn {}: {} of the uncancelled run is missing or out of order", ci, describe(miss)));
                         break;
                     }
-                    if pa.last().is_some_and(|x| x.first() == Some(&0xE0)) && pb.last() != pa.last() {
+                    if pa.last().is_some_and(|x| x.first() == Some(&0xE0)) && pb.last() != pa.last() && !(alt_last.is_some() && pb.last() == alt_last) {
                         bad = Some(format!("conn {}: does not end with the DISCONNECT of the uncancelled run", ci));
                         break;
                     }
@@ -735,11 +775,16 @@ impl Check for C13 {
                 // with the keep-alive deadline falling right behind the request, a PINGREQ goes out
                 // before a queued packet of which no byte has been written yet, and after one
                 // that is in progress: its position is not compared, everything else is
-                if advance_after.is_some() {
-                    let strip = |o: &Observed| Observed { packets: o.packets.iter().map(|c| c.iter().filter(|p| p.first() != Some(&0xC0)).cloned().collect()).collect(), dangling: o.dangling.clone(), delivered: o.delivered.clone() };
-                    diff(&strip(&a_obs), &strip(&b_obs))
-                } else {
-                    diff(&a_obs, &b_obs)
+                let strip = |o: &Observed| if advance_after.is_some() { Observed { packets: o.packets.iter().map(|c| c.iter().filter(|p| p.first() != Some(&0xC0)).cloned().collect()).collect(), dangling: o.dangling.clone(), delivered: o.delivered.clone() } } else { Observed { packets: o.packets.clone(), dangling: o.dangling.clone(), delivered: o.delivered.clone() } };
+                let d = diff(&strip(&a_obs), &strip(&b_obs));
+                // (made again with other contents: like the run that asked for the first DISCONNECT
+                // or like the run that asked for the second)
+                match (&d, &a2_obs) {
+                    (Some(_), Some(a2)) if diff(&strip(a2), &strip(&b_obs)).is_none() => {
+                        out.count("second_disconnect_went_out_as_asked", 1);
+                        None
+                    }
+                    _ => d,
                 }
             } {
                 let partial = bops.iter().any(|o| blog.ops[*o].outcome == Outcome::Cancelled && blog.ops[*o].out_after > blog.ops[*o].out_before);
@@ -1065,12 +1110,19 @@ fn send_buffer_full(rng: &mut Rng, seed: u64, verbose: bool) -> CaseOut {
         2 => Step::Subscribe(SubSpec { filters: vec![FilterSpec { filter: "w/#".into(), max_qos: 1, no_local: false, rap: false, rh: 0 }], props: vec![], cancel_at: None }),
         _ => Step::Unsubscribe(UnsubSpec { filters: vec!["w".into(), "x/y".into()], props: vec![], cancel_at: None }),
     };
-    let next = match rng.below(5) {
+    let next = match rng.below(8) {
         0 | 1 => Step::Disconnect(DiscSpec { reason: *rng.pick(&[None, Some(4u8)]), props: None, cancel_at: None }),
         2 => poll0(),
         3 => Step::Publish(PubSpec { topic: "z".into(), payload: PayloadSpec::Fill { len: 3, tag: 9, ascii: false }, qos: 0, retain: false, props: vec![], correlate: None, cancel_at: None }),
+        4 => Step::Subscribe(SubSpec { filters: vec![FilterSpec { filter: "n/+".into(), max_qos: 2, no_local: false, rap: false, rh: 0 }], props: vec![], cancel_at: None }),
+        5 => Step::Unsubscribe(UnsubSpec { filters: vec!["n/+".into()], props: vec![], cancel_at: None }),
+        6 => pubq(2, "n2", 4, 2),
         _ => pub1("n", 3, 2),
     };
+    // the next request finds the send buffer full once more, somewhere in the rest of the packet it
+    // has to finish first, is given up there as well and made again (variants other than the
+    // first): nothing of a request that was given up before it got into the session may show
+    let restall = matches!(&next, Step::Publish(p) if p.qos > 0) || matches!(next, Step::Subscribe(_) | Step::Unsubscribe(_));
     // length of the request's packet
     let len = {
         let (_l, w) = run_script(&cfg, vec![connect_with(SpMode::Force(false), AckMode::Hold, vec![]), request.clone()], seed);
@@ -1081,23 +1133,37 @@ fn send_buffer_full(rng: &mut Rng, seed: u64, verbose: bool) -> CaseOut {
         return out;
     }
     let k = 1 + rng.below(len - 1);
+    let k2 = rng.below(len - k);
     let chunks = [Chunk::All, Chunk::One, Chunk::Fixed(2), Chunk::Fixed(3), Chunk::AltOneAll, Chunk::AllButOne];
     let mut reference: Option<(Vec<u8>, Vec<String>)> = None;
     for (vi, ch) in chunks.iter().enumerate() {
-        let steps = vec![
+        let again = restall && vi % 2 == 1;
+        let mut steps = vec![
             connect_with(SpMode::Force(false), AckMode::Hold, vec![]),
             Step::Broker(BrokerAct::WriteGate { after: k, blocks: 1 }),
             request.clone(),
             // from here on the transport accepts writes in this variant's pieces
             Step::Io { policy: Some(IoPolicy { write: *ch, ..IoPolicy::default() }), faults: vec![] },
-            next.clone(),
-            poll0(),
-            poll0(),
         ];
+        if again {
+            steps.push(Step::Broker(BrokerAct::WriteGate { after: k2, blocks: 1 }));
+            steps.push(next.clone());
+        }
+        steps.extend([next.clone(), poll0(), poll0()]);
         let (log, world) = run_script(&cfg, steps, seed);
         let w = world.borrow();
         out.evaluations += 1;
         out.count("twins_compared", 1);
+        if again {
+            // (the call that was given up is not part of the comparison; where the buffer did
+            // not fill up a second time - the request before it had not been stuck - this
+            // variant is not compared at all)
+            let given_up = log.ops.get(2).is_some_and(|o| o.outcome == Outcome::CallerTimeout && o.new_retained.is_empty());
+            if !given_up {
+                continue;
+            }
+            out.count("requests_given_up_in_their_leading_flush_and_made_again", 1);
+        }
         let stuck = log.ops.get(1).is_some_and(|o| o.outcome == Outcome::CallerTimeout && o.out_after - o.out_before == k);
         if stuck {
             out.count("requests_given_up_inside_their_packet", 1);
@@ -1113,7 +1179,7 @@ fn send_buffer_full(rng: &mut Rng, seed: u64, verbose: bool) -> CaseOut {
             out.violations.push(viol("C15", "C15/send-buffer-full/stream-not-decodable", format!("request given up after {} of {} bytes, then {} with writes accepted {:?}: the outbound stream does not decode at offset {}: {}", k, len, next.kind(), ch, off, why)));
             break;
         }
-        let results: Vec<String> = log.ops.iter().map(|o| format!("{}:{:?}", o.kind, o.outcome)).collect();
+        let results: Vec<String> = log.ops.iter().enumerate().filter(|(i, _)| !(again && *i == 2)).map(|(_, o)| format!("{}:{:?}", o.kind, o.outcome)).collect();
         match &reference {
             None => reference = Some((bytes, results)),
             Some((rb, rr)) => {
